@@ -104,16 +104,17 @@ fn add_parent_h<const PP: bool, const CP: bool>(unchecked: bool) {
         // c == 2 joined children(1); p == 1 joined parents(2)
         assert!(is_subset_of(t1.children(), &kids, mk | 0b001), "child recorded on the parent");
         assert!(is_subset_of(t2.parents(), &pars, mp | 0b001), "parent recorded on the child");
-        kani::cover!(mk & 1 == 0 && mp & 1 == 0, "new link");
-        kani::cover!(mk & 1 == 1 && mp & 1 == 1, "link already present");
+        kani::cover!(mk & 1 == 0 && mp & 1 == 0, "opt: new link");
+        kani::cover!(mk & 1 == 1 && mp & 1 == 1, "opt: link already present");
     } else {
         assert!(is_subset_of(t1.children(), &kids, mk), "rejected call: children of the parent unchanged");
         assert!(is_subset_of(t2.parents(), &pars, mp), "rejected call: parents of the child unchanged");
-        kani::cover!(mk != 0 && mp != 0, "rejected call on a populated builder");
+        kani::cover!(mk != 0 && mp != 0, "opt: rejected call on a populated builder");
     }
     assert!(t1.parents().is_empty() && t1.all_parents().is_empty(), "nothing else touched (term 1)");
     assert!(t2.children().is_empty() && t2.all_parents().is_empty(), "nothing else touched (term 2)");
     assert!(b.hpo_terms.len() == 2, "no term created");
+    kani::cover!(mk != 0 && mp != 0, "call returned on a populated builder");
     core::mem::forget(b);
 }
 
@@ -178,6 +179,7 @@ fn annotate_h<const PRESENT: bool>(kind: Kind) {
     let ok = r.is_ok();
     core::mem::forget(r);
     assert!(ok == PRESENT, "Ok iff the term exists");
+    kani::cover!(true, "annotate call returned");
     let (n_g, n_o, n_r) = (b.genes.len(), b.omim_diseases.len(), b.orpha_diseases.len());
     let term = b.hpo_terms.get(tid(3)).unwrap();
     let (tg, to, tr) = (term.genes().len(), term.omim_diseases().len(), term.orpha_diseases().len());
@@ -189,11 +191,11 @@ fn annotate_h<const PRESENT: bool>(kind: Kind) {
         };
         assert!((n_g, n_o, n_r) == expect, "exactly one record of the addressed kind");
         assert!((tg, to, tr) == expect, "the term is linked to it, kinds do not leak");
-        kani::cover!(true, "annotation accepted");
+        kani::cover!(true, "opt: annotation accepted");
     } else {
         assert!((n_g, n_o, n_r) == (0, 0, 0), "rejected call creates no record");
         assert!((tg, to, tr) == (0, 0, 0), "rejected call links nothing");
-        kani::cover!(true, "annotation rejected");
+        kani::cover!(true, "opt: annotation rejected");
     }
     core::mem::forget(b);
 }
@@ -364,3 +366,4 @@ fn c01_cache_step_recursive_chain() {
     kani::cover!(a[1] == u32::MAX, "largest id as an ancestor");
     core::mem::forget(b);
 }
+
